@@ -100,20 +100,24 @@ def crashpoint_scenarios(workdir, seed, tier):
                 if e.get("inc", 1) == 1:
                     ops[key] = max(ops.get(key, 0), e["k"])
     variants = []
+    always = []
     for b in bases:
-        for node in b["voters"]:
+        for node in b.get("cp_nodes", b["voters"]):
             kmax = ops.get(("cpbase-" + b["name"], node), 0)
             for k in range(2, kmax + 1):          # operation 1 is the Bootstrap append of the skeleton
                 for when in ("before", "after"):
                     sc = json.loads(json.dumps(b))
                     sc["name"] = "cp-%s-%s-%d%s" % (b["name"], node, k, when[0])
                     sc["stimuli"] = [{"op": "armcrash", "n": node, "k": k - 1, "w": when}] + sc["stimuli"]
-                    variants.append(sc)
-    total = len(variants)
+                    sc.pop("cp_nodes", None)
+                    # base scenarios that name the nodes of interest are small: never sampled away
+                    (always if "cp_nodes" in b else variants).append(sc)
+    total = len(variants) + len(always)
     if tier == "quick" and total > 160:
         rng = random.Random(sseed(seed, "cp", 0))
         rng.shuffle(variants)
-        variants = variants[:160]
+        variants = variants[:max(0, 160 - len(always))]
+    variants = always + variants
     return variants, {"crash_points_enumerated": total, "crash_points_run": len(variants), "crash_point_base_scenarios": [b["name"] for b in bases]}
 
 
@@ -502,7 +506,7 @@ PROPS = {
     "C12": dict(storage=True),
     "C13": dict(storage=True),
     "C15": dict(fams=[("core", 2), ("crash", 2), ("snap", 2), ("member5", 2)], corpus=["core", "crash", "snap", "member"], mc="MC_heal", mc_deep="MC_heal_deep", mc_module="Heal", healstates=True),
-    "C16": dict(fams=[("healthy", 6)], corpus=["healthy"], mc=None),
+    "C16": dict(fams=[("healthy", 5), ("core", 2)], corpus=["healthy"], mc=None),
     "C17": dict(fams=[("lease", 6)], corpus=["lease"], mc="MC_timed", mc_module="RaftTimed"),
     "C18": dict(fams=[("core", 1)], corpus=["api"], api=True, mc=None),
 }
